@@ -96,6 +96,19 @@ def run(ctx):
     for seq in ([big, small], [small, big, small], [big, "make~1", small, "make~1"], [f"add~{PA}~0", big, "make~1", small, "getm"], [big, big, small, small]):
         for ctor in [(1, 0, 10, 4, 3), (None, 1, 10, 0, None)]:
             items.append((ctor, list(seq), ()))
+    # a compile that FAILS after one that succeeded on the same object (a payload that fits version 40 at the first level and
+    # not at the level assigned afterwards), followed by every operation that compiles implicitly: nothing of the earlier
+    # symbol may be served. Levels: 1 = L, 0 = M, 3 = Q, 2 = H; byte capacities of version 40: 2953 / 2331 / 1663 / 1273.
+    def blob(n, kind):
+        return ",".join(str(b) for b in gens.payload(rnd, kind, n))
+    for (l0, l1, n, kind, opt) in [(1, 2, 1300, "lower", 0), (0, 2, 1280, "bytes", 0), (1, 3, 1700, "lower", 20), (3, 2, 3100, "digits", 0),
+                                   (1, 0, 2400, "bytes", 0)][: 5 if tier == "thorough" else 3]:
+        for tail in (["getm"], ["img"], ["tty"], ["make~0", "getm"], ["make~1", "getm"], [f"setl~{l0}", "getm"]):
+            for first in ("make~1", "getm"):
+                for ctor_v in (None, 7):
+                    if tier != "thorough" and (len(items) + seed) % 3:
+                        continue
+                    items.append(((ctor_v, l0, 10, 0, rnd.choice([None, 2])), [f"add~{blob(n, kind)}~{opt}", first, f"setl~{l1}", "make~1"] + tail, ()))
     D = 4 if tier == "thorough" else 3
     ctors = [(1, 0, 10, 4, 3), (None, 1, 10, 0, None)]
     for d in range(1, D + 1):
